@@ -434,10 +434,37 @@ func modelReplyLines(ans string) []int {
 	return res
 }
 
-const (
+// the last words of a session whose read failed: learnt from the tree under test (smtpCalibrate) — the wording is the implementation's business,
+// the oracles ask that the right line is sent exactly once.  Defaults: the pinned tree's.
+var (
 	smtpIdleText = "221 Idle timeout, bye bye"
 	smtpConnText = "221 Connection error, sorry"
 )
+
+func smtpCalibrate(c *core.Ctx, env *smtpEnv) {
+	for _, k := range []scKind{scTimeout, scNetErr} {
+		smtpMu.Lock()
+		st, err := env.build()
+		smtpMu.Unlock()
+		if err != nil {
+			return
+		}
+		conn := newScriptConn([]scEv{{kind: k}}, -1, st.root.SMTP.Timeout)
+		panicked, wedged, _ := runWatched(func() { st.srv.VerifServe(1, conn) }, 10*time.Second)
+		if panicked != "" || wedged {
+			return
+		}
+		lines, bad := parseWire(conn.output())
+		if bad == "" && len(lines) == 2 && lines[1].code == 221 { // greeting, last words
+			if k == scTimeout {
+				smtpIdleText = lines[1].raw
+			} else {
+				smtpConnText = lines[1].raw
+			}
+		}
+	}
+	c.Note("c03 end leg: last words learnt from the tree under test: time-out %q, other read error %q", smtpIdleText, smtpConnText)
+}
 
 // terminator offsets: for each data block of the dialogue, the offset just after its ".\r\n"
 func blockEnds(d smtpDialogue) []int {
@@ -1102,6 +1129,7 @@ func runEndLive(c *core.Ctx, m *core.Model, r *rand.Rand, idx int) {
 }
 
 func c03EndLeg(c *core.Ctx) {
+	smtpCalibrate(c, genEndCase(c.SubRng("c03end-calibrate")).env)
 	n := c.Scale(6000, 120000)
 	workers := 12
 	core.Parallel(workers, workers, func(sh int) {
